@@ -365,7 +365,9 @@ def check_surface_case(am, case, with_fault=True):
                 np.allclose(canonical(out.atoms.pos, out.atoms.atype, out.box, (i1, i2)), base, atol=3e-5)
             if whole and not same:
                 msgs.append('%s: shifting by a whole in-plane lattice vector does not restore the perfect crystal' % tag)
-            if not np.allclose(out.box.vects, system.box.vects) or not np.allclose(out.box.origin, system.box.origin):
+            # (atoms pushed out through the free surface enlarge the cell along the non-periodic cut vector: wrap's documented behaviour, C05)
+            if not np.allclose(out.box.vects[[i1, i2]], system.box.vects[[i1, i2]]) or np.linalg.norm(np.cross(out.box.vects[k], system.box.vects[k])) > 1e-8 \
+                    or (oop is None and (not np.allclose(out.box.vects, system.box.vects) or not np.allclose(out.box.origin, system.box.origin))):
                 msgs.append('%s: cell changed' % tag)
             if msgs:
                 return msgs
